@@ -167,6 +167,108 @@ func runC13(c *Check, a *Analysis) {
 		}
 	}
 
+	// ---- R-ATOMIC-POOL / R-FRESH-LOOKUP (check-then-act)
+	c.Rule("R-ATOMIC-POOL", "in getConn every pool read, liveness test and dial lies in the same critical section of Transport.connsMu as every pool update it can reach (no unlock between deciding and acting), and every dial happens with the lock held", 6)
+	if gc != nil {
+		ls := a.Locks()
+		isPoolRead := func(in ssa.Instruction) bool {
+			if v, ok := in.(ssa.Value); ok {
+				for _, fr := range []FieldRef{{"Transport", "conns"}, {"Transport", "idleConns"}, {"conns", "Conns"}, {"persistConn", "alive"}} {
+					if isLoadOf(v, fr.Struct, fr.Field) {
+						return true
+					}
+				}
+			}
+			return isCallTo(in, "(*connQueue).Length", "(*connQueue).Dequeue", "(*conns).Cursor", "(*Transport).newPersistConn")
+		}
+		isPoolWrite := func(in ssa.Instruction) bool {
+			switch x := in.(type) {
+			case *ssa.MapUpdate:
+				return isLoadOf(p.canon(x.Map), "Transport", "conns") || isLoadOf(p.canon(x.Map), "Transport", "idleConns")
+			case *ssa.Store:
+				if ia, ok := x.Addr.(*ssa.IndexAddr); ok && isLoadOf(p.canon(ia.X), "conns", "Conns") {
+					return true
+				}
+			}
+			return isCallTo(in, "(*conns).Append")
+		}
+		var reads, writes []ssa.Instruction
+		eachInstr(gc, func(in ssa.Instruction) {
+			if isPoolRead(in) {
+				reads = append(reads, in)
+			}
+			if isPoolWrite(in) {
+				writes = append(writes, in)
+			}
+		})
+		for _, w := range writes {
+			ok := true
+			var badR ssa.Instruction
+			for _, r := range reads {
+				if p.canReach(r, w, nil) && !ls.SameSection(r, w, "Transport.connsMu") {
+					ok, badR = false, r
+				}
+			}
+			det := ""
+			if !ok {
+				det = "the pool is updated in a different critical section than the one in which " + p.At(badR) + " decided it (the lock is released in between): concurrent callers all act on the same stale decision and exceed the limit / leak connections"
+			}
+			c.Ob("R-ATOMIC-POOL", sc.key(gc, "decide and update in one section"), p.InstrPos(w), ok, det)
+		}
+		for _, d := range callsIn(gc, "(*Transport).newPersistConn") {
+			held := ls.Held(d.(ssa.Instruction), "Transport.connsMu")
+			c.Ob("R-ATOMIC-POOL", sc.key(gc, "dial under connsMu"), p.InstrPos(d), held, ifs(!held, "getConn dials with the pool lock released: several callers dial for the same slot"))
+		}
+	}
+	c.Rule("R-FRESH-LOOKUP", "a fresh container is stored into a pool map only under a lookup miss of that map that is re-evaluated before every such store (no path from one insertion to the next avoids the lookup)", 2)
+	for _, tbl := range []string{"conns", "idleConns"} {
+		for _, op := range p.mapOps("Transport", tbl) {
+			if op.Kind != "update" {
+				continue
+			}
+			fresh := false
+			for _, o := range p.origins(op.Val) {
+				o = p.canon(o)
+				if _, isAlloc := o.(*ssa.Alloc); isAlloc {
+					fresh = true
+				}
+				if cc, isC := o.(*ssa.Call); isC && calleeName(cc) == "newConnQueue" {
+					fresh = true
+				}
+			}
+			if !fresh {
+				continue
+			}
+			fn := op.Fn
+			var lk ssa.Instruction
+			eachInstr(fn, func(in ssa.Instruction) {
+				l, ok := in.(*ssa.Lookup)
+				if !ok || !l.CommaOk || !isLoadOf(p.canon(l.X), "Transport", tbl) {
+					return
+				}
+				g, _ := p.guardedBy(op.Instr, func(cond ssa.Value) (bool, bool) {
+					e, ok := p.canon(cond).(*ssa.Extract)
+					if !ok || e.Index != 1 || e.Tuple != ssa.Value(l) {
+						return false, false
+					}
+					return true, false
+				})
+				if g {
+					lk = in
+				}
+			})
+			ok := lk != nil
+			det := ""
+			if lk == nil {
+				det = "a fresh container is stored into Transport." + tbl + " without a lookup miss guarding it: an existing container (and its connections) is overwritten and leaked"
+			} else if _, tr, again := p.reachFrom(fn, op.Instr, func(x ssa.Instruction) bool { return x == op.Instr }, func(x ssa.Instruction) bool { return x == lk }); again {
+				ok = false
+				det = "the lookup that justifies this insertion is not re-evaluated between two insertions (path " + p.lineTrail(tr) + "): the second one overwrites the container just stored and its connections are leaked open"
+			}
+			c.Ob("R-FRESH-LOOKUP", sc.key(fn, "Transport."+tbl+"[addr]=fresh container"), p.InstrPos(op.Instr), ok, det)
+		}
+	}
+
 	// ---- R-IDLE-CAP
 	c.Rule("R-IDLE-CAP", "connQueue.Enqueue refuses at length == capacity; every queue is created with capacity t.MaxIdleConnsPerHost; a connection rejected by Enqueue is closed (Enqueue on a queue created in the same function is exempt)", 4)
 	if enq := p.Fn("(*connQueue).Enqueue"); enq == nil {
